@@ -35,19 +35,15 @@ def load_meta():
 
 
 def verus_units_for(prop: str) -> list[str]:
+    """A unit declares the properties it serves in its header line: `//@ unit <name> props=C01,C14`."""
     out = []
     d = os.path.join(VERIF, "contracts")
     for f in sorted(os.listdir(d)):
         if not f.endswith(".vrs"):
             continue
-        txt = open(os.path.join(d, f)).read()
-        tagged = False
-        for m in re.finditer(r"//@ \| props (.*)|//@ obligation \S+ (.*)|//@ \| ensures\[([^\]]*)\]|//@ \| oblig \S+ ([^:]*):", txt):
-            s = " ".join(x for x in m.groups() if x)
-            if prop in s.replace(",", " ").split():
-                tagged = True
-                break
-        if tagged:
+        first = open(os.path.join(d, f)).readline()
+        m = re.match(r"//@ unit \S+\s+props=(\S+)", first)
+        if m and prop in m.group(1).split(","):
             out.append(f)
     return out
 
@@ -158,6 +154,7 @@ class Run:
         kani_by_oid = {r.harness.oid: r for r in kres}
         # ---- Verus verdicts ------------------------------------------------------------------
         verus_failed: dict[str, dict] = {}
+        seen_oids: set[str] = set()
         for vr in vres:
             unit = vr["unit"]
             if not vr["ok"]:
@@ -217,8 +214,9 @@ class Run:
             for short, rs in main.fn_results.items():
                 fn_ok[short] = all(x["success"] for x in rs)
             for ob in g.obligations:
-                if prop not in ob.props:
+                if prop not in ob.props or ob.oid in seen_oids:
                     continue
+                seen_oids.add(ob.oid)
                 row = {"id": ob.oid, "backend": "verus", "kind": ob.kind, "function": ob.src, "clause": ob.text, "status": "discharged"}
                 if ob.oid in failed_oids:
                     fl = failed_oids[ob.oid]
